@@ -37,7 +37,7 @@ RULE = ("inputs = (context, token string, mutation, package deviation, entry poi
 Q_GROUPS = ["q-place1", "q-place2", "q-mut0", "q-mut1", "q-pkg", "q-extreme"]
 T_GROUPS = [["t-place2", "t-mut0", "t-pkg"], ["t-place3"], ["t-odd2", "t-mut2"], ["t-mut1"], ["t-extreme"]]
 BOUNDS = {
-    "q-place1": "23 contexts x <= 1 generated element over the whole alphabet (100 names), <= 1 oddity (ungrammatical placement of one of 15 names, or attribute class none/bad), no mutation, full battery",
+    "q-place1": "23 contexts x <= 1 generated element over the whole alphabet (100 names), <= 1 oddity (ungrammatical placement of one of 15 names, or attribute class none/word/negative/large/2^31), no mutation, full battery",
     "q-place2": "10 main contexts x exactly 2 generated elements over 22 names, <= 1 ungrammatical placement, no mutation",
     "q-mut0": "23 context paths x every mutation kind (29) x every position",
     "q-mut1": "23 contexts x one grammatical element of 22 names x every truncation and every dropped end tag",
@@ -122,7 +122,7 @@ def pipeline(ctx, replay_case=None):
     q = ctx.tier == "quick"
     pend = []
     ctx.assumptions += [
-        "time limit: 20 s wall clock per call (40 s for the extreme sizes); an overrun or a death of the worker process counts "
+        "time limit: 10 s wall clock per call (20 s for the extreme sizes), 6 GiB of address space per worker; an overrun or a death of the worker process counts "
         "only if it repeats at the same call when the case is re-executed in a fresh process with four times the limit; "
         "otherwise it is logged as noise and judged by nothing",
         "the battery passes the natural arguments a caller derives from the accessors (positions 0 and count, data sized by "
@@ -161,7 +161,7 @@ def pipeline(ctx, replay_case=None):
                      % (len(sim), 9 if q else 14, 4 if q else 6))
     judge(ctx, pend)
     ctx.extra_cov["bounds"] = bounds
-    ctx.extra_cov["battery"] = "full = 38 calls per opened document (XmlIn_MC!BatteryFull); std = the same without SaveFile, Template, StyleReads, CopyTable"
+    ctx.extra_cov["battery"] = "full = 39 calls per opened document (XmlIn_MC!BatteryFull); std = the same without SaveFile, Template, StyleReads, CopyTable"
     return ctx.finish(LEVEL, RULE)
 
 
